@@ -57,8 +57,15 @@ def count_leaf():
 
 def count_leaf_nonneg():
     nonneg = st.integers(0, 40).map(lambda v: ("num", v))
+    tiny = st.integers(0, 5).map(lambda v: ("num", v))
+    pos = st.integers(1, 9).map(lambda v: ("num", v))
+    # counts spelled with the operators that bind tighter than a shift, so that 'a << b % c' etc. occur without brackets
     return st.one_of(nonneg, nonneg, st.just(("sym", "k4")),
-                     st.tuples(nonneg, nonneg).map(lambda t: ("bin", "+", t[0], ("bin", "-", t[1], t[1]))))
+                     st.tuples(nonneg, nonneg).map(lambda t: ("bin", "+", t[0], ("bin", "-", t[1], t[1]))),
+                     st.tuples(nonneg, pos).map(lambda t: ("bin", "%", t[0], t[1])),
+                     st.tuples(nonneg, pos).map(lambda t: ("bin", "/", t[0], t[1])),
+                     st.tuples(tiny, tiny).map(lambda t: ("bin", "*", t[0], t[1])),
+                     st.tuples(nonneg, tiny).map(lambda t: ("bin", "-", ("bin", "+", t[0], t[1]), t[1])))
 
 
 @st.composite
